@@ -182,36 +182,45 @@ class DomainAdapter(Adapter):
             if rel(d.to_fourier(d.to_real(x)), x0) > rt:
                 bad('RoundTrip.fourier', err=rel(d.to_fourier(d.to_real(x)), x0), bound=rt)
         if 'matrixarray' in self.which and not out:
+            # memory layouts a user's array may have: C order, Fortran order, the per-matrix transpose view, a
+            # pair-major (rank, rank, n) table transposed, every second row of a longer array
+            layouts = [('C', lambda a: a.copy()), ('F', np.asfortranarray), ('swapaxes', lambda a: a.copy().swapaxes(1, 2)),
+                       ('table.T', lambda a: np.ascontiguousarray(a.T).T), ('strided', lambda a: np.repeat(a, 2, axis=0)[::2])]
             for rank in (1, 2, 3, 4):
-                data = self.rng.standard_normal((n, rank, rank))
-                data = data + np.transpose(data, (0, 2, 1))
-                m = MatrixArray(length=n, rank=rank, data=data.copy(), space=Space.Real)
-                d.MatrixArray_to_fourier(m)
-                exp = np.einsum('jn,nab->jab', MF, data)
-                if m.space != Space.Fourier:
-                    bad('MatrixArray.flag', rank=rank, observed=str(m.space))
-                if rel(m.data, exp) > tol:
-                    bad('MatrixArray.forward', rank=rank, err=rel(m.data, exp))
-                if not np.array_equal(m.data, np.transpose(m.data, (0, 2, 1))):
-                    bad('MatrixArray.symmetric', rank=rank)
-                snap = m.data.copy()
-                try:
-                    d.MatrixArray_to_fourier(m)
-                    bad('SpaceGuard', what='second MatrixArray_to_fourier did not raise', rank=rank)
-                except ValueError:
-                    if not np.array_equal(snap, m.data) or m.space != Space.Fourier:
-                        bad('SpaceGuard', what='refused transform modified the array', rank=rank)
-                d.MatrixArray_to_real(m)
-                exp2 = np.einsum('in,nab->iab', MR, exp)
-                if m.space != Space.Real or rel(m.data, exp2) > 1e-9:
-                    bad('MatrixArray.backward', rank=rank, err=rel(m.data, exp2), flag=str(m.space))
-                try:
-                    d.MatrixArray_to_real(m)
-                    bad('SpaceGuard', what='second MatrixArray_to_real did not raise', rank=rank)
-                except ValueError:
-                    pass
-                if out:
-                    break
+              for lname, layout in layouts:
+                  data = self.rng.standard_normal((n, rank, rank))
+                  data = data + np.transpose(data, (0, 2, 1))
+                  m = MatrixArray(length=n, rank=rank, data=layout(data.copy()), space=Space.Real)       # never the reference array itself
+                  if not np.array_equal(np.asarray(m.data), data):
+                    raise MachineryError('layout %s changed the values' % lname)
+                  d.MatrixArray_to_fourier(m)
+                  exp = np.einsum('jn,nab->jab', MF, data)
+                  if m.space != Space.Fourier:
+                      bad('MatrixArray.flag', rank=rank, layout=lname, observed=str(m.space))
+                  if rel(m.data, exp) > tol:
+                      bad('MatrixArray.forward', rank=rank, layout=lname, err=rel(m.data, exp))
+                  if not np.array_equal(m.data, np.transpose(m.data, (0, 2, 1))):
+                      bad('MatrixArray.symmetric', rank=rank)
+                  snap = m.data.copy()
+                  try:
+                      d.MatrixArray_to_fourier(m)
+                      bad('SpaceGuard', what='second MatrixArray_to_fourier did not raise', rank=rank)
+                  except ValueError:
+                      if not np.array_equal(snap, m.data) or m.space != Space.Fourier:
+                          bad('SpaceGuard', what='refused transform modified the array', rank=rank)
+                  d.MatrixArray_to_real(m)
+                  exp2 = np.einsum('in,nab->iab', MR, exp)
+                  if m.space != Space.Real or rel(m.data, exp2) > 1e-9:
+                      bad('MatrixArray.backward', rank=rank, layout=lname, err=rel(m.data, exp2), flag=str(m.space))
+                  try:
+                      d.MatrixArray_to_real(m)
+                      bad('SpaceGuard', what='second MatrixArray_to_real did not raise', rank=rank)
+                  except ValueError:
+                      pass
+                  if out:
+                      break
+              if out:
+                  break
         return out
 
 
